@@ -84,8 +84,9 @@ def gen_scenario(rng: random.Random, focus: str = "any") -> dict:
         if rng.random() < 0.8:
             comp, cb = rng.choice(FAULT_POINTS)
             sc["faults"] = [{"comp": comp, "cb": cb, "k": rng.choice([1, 1, 2, 3])}]
-            if rng.random() < 0.15:
-                # the same component objects in a second launch() of the process (a first, fault-free one went before)
+            if focus == "C03" and rng.random() < 0.15:
+                # the same component objects in a second launch() of the process (a first, fault-free one went before;
+                # C03 only: the harness components' own counters carry over, which the data monitors of C04 do not expect)
                 sc["prelaunch"] = True
                 sc["reuse_components"] = True
             if comp.startswith("trainer"):
